@@ -11,7 +11,7 @@ import json
 import os
 import random
 
-from .. import core, tlcrun, par, node
+from .. import core, tlcrun, par, node, messages
 from ..text import s, cps, ss, cpss
 from .. import impl
 
@@ -50,7 +50,7 @@ def py_iter(rbql_csv, rbql_engine, line, dlm, policy):
         it = rbql_csv.CSVRecordIterator(io.StringIO(line), None, dlm, policy)
         recs = it.get_all_records()
         w = it.get_warnings()
-        return {'records': recs, 'qwarn': any('double quote' in x for x in w)}
+        return {'records': recs, 'qwarn': messages.has_kind(w, 'quoting')}
     except rbql_engine.RbqlIOHandlingError as e:
         return {'ioerror': str(e)}
 
